@@ -5,6 +5,7 @@ mod lib_e2e;
 mod fam_e2e;
 mod fam_c04;
 mod fam_c11;
+mod fam_c06;
 
 fn main() {
     let args: Vec<String> = std::env::args().collect();
@@ -21,6 +22,7 @@ fn main() {
         "e2e" => fam_e2e::run(seed, thorough),
         "c04" => fam_c04::run(seed, thorough),
         "c11" => fam_c11::run(seed, thorough),
+        "c06" => fam_c06::run(seed, thorough),
         other => {
             eprintln!("unknown family {}", other);
             std::process::exit(2);
